@@ -9,15 +9,18 @@ import (
 )
 
 func init() {
+	vRegister("vC13_history3", vC13_history3)
+	vRegister("vC13_history4", vC13_history4)
 	vRegister("vC13_history5", vC13_history5)
 	vRegister("vC13_history6", vC13_history6)
-	vRegister("vC13_history7", vC13_history7)
+	vRegister("vC13_suffix3", vC13_suffix3)
+	vRegister("vC13_suffix4", vC13_suffix4)
 	vRegister("vC13_nobuffer", vC13_nobuffer)
 }
 
 type vC13Msg struct{ tag int }
 
-const vC13Max = 8
+const vC13Max = 10
 
 // what the sender put into each message (indexed by tag)
 var (
@@ -58,11 +61,41 @@ func vC13_same(ctx *ReceiveContext, pid *PID, tag int) bool {
 		ctx.requestID == vC13_reqID[tag] && ctx.self == pid && ctx.err == nil
 }
 
+func vC13_history3() { vC13_history(3) }
+func vC13_history4() { vC13_history(4) }
 func vC13_history5() { vC13_history(5) }
 func vC13_history6() { vC13_history(6) }
-func vC13_history7() { vC13_history(7) }
+func vC13_suffix3()  { vC13_history(3) }
+func vC13_suffix4()  { vC13_history(4) }
 
-// K symbolic decisions over a stream of ghost-tagged messages against two reference FIFO queues (main mailbox, stash)
+// concrete prefixes that build differently shaped states (case-split by the driver; "" = fresh actor):
+// A arrive, S take+stash, H take+handle, U Unstash, L UnstashAll
+var vC13_prefixes = [...]string{
+	"",        // main [] stash []
+	"AAS",     // main [1] stash [0]
+	"AAASS",   // main [2] stash [0 1]
+	"AASSU",   // main [0] stash [1], both sentinels are used contexts
+	"AAAASSS", // main [3] stash [0 1 2]
+	"AASSLA",  // main [0 1 2] stash []
+	"AAASHU",  // main [2 0] stash [], one handled in between
+}
+
+func vC13_opOf(c byte) int {
+	switch c {
+	case 'A':
+		return 0
+	case 'S':
+		return 1
+	case 'H':
+		return 2
+	case 'U':
+		return 3
+	}
+	return 4
+}
+
+// a concrete prefix (chosen by case split) followed by K symbolic decisions over a stream of ghost-tagged messages,
+// against two reference FIFO queues (main mailbox, stash)
 //
 //	0 a new message arrives (real doReceive into the real main mailbox)
 //	1 the actor takes its next message and stashes it (ReceiveContext.Stash)
@@ -74,8 +107,14 @@ func vC13_history(K int) {
 	senders := [2]*PID{{}, {}}
 	var mainQ, stashQ vC13Queue
 	next := 0
-	for k := 0; k < K; k++ {
-		op := vChoose("op", 5)
+	prefix := vC13_prefixes[vCase("prefix")]
+	for k := 0; k < len(prefix)+K; k++ {
+		var op int
+		if k < len(prefix) {
+			op = vC13_opOf(prefix[k])
+		} else {
+			op = vChoose("op", 5)
+		}
 		switch op {
 		case 0:
 			tag := next
@@ -139,8 +178,8 @@ func vC13_history(K int) {
 				mainQ.push(stashQ.pop())
 			}
 		}
-		vAssert(pid.stashState.box.Len() == int64(stashQ.n), "the stash holds exactly the stashed, not yet unstashed messages")
 	}
+	vAssert(pid.stashState.box.Len() == int64(stashQ.n), "the stash holds exactly the stashed, not yet unstashed messages")
 	// final accounting: drain both real queues and compare with the model (nothing lost, duplicated or reordered)
 	vAssert(pid.mailbox.Len() == int64(mainQ.n), "main mailbox length equals the model")
 	if mainQ.n >= 2 && stashQ.n >= 1 {
